@@ -472,6 +472,7 @@ def cases(tier, seed):
                         for opn in ('=', '+=', '-=', '*=', '/='):
                             if ty.kind == 'int' and opn in ('*=', '/='): continue     # symbolic 32-bit multiply/divide: not decided by SAT in reasonable time; the float instances (UF) go through the same type-generic assign_mul/assign_div
                             for rhs in ('B', 'self', 'M2', 'BplusM2'):
+                                if rhs == 'BplusM2' and prod(shape) > 20 and not thorough: continue     # 34 uninterpreted lanes x 2 operations: 300 s are not enough on a loaded machine
                                 out.append(map_compound_case(ty, shape, (si + 1) % 4, opn, rhs, cfg))
             # ---- tensor assigned to a dynamic view of a map ----
             for shape in [(5,), (3, 4), (3, 2, 2)]:
